@@ -112,6 +112,7 @@ def std_cases(seed, tier, scratch, resume_fraction=3, names=None):
     import os
 
     cells = {c[0]: c for c in STD_CELLS}
+    full_matrix = names is None
     if names is None:
         names = QUICK_STD if tier == "quick" else [c[0] for c in STD_CELLS]
     reps = 1 if tier == "quick" else 6
@@ -130,8 +131,8 @@ def std_cases(seed, tier, scratch, resume_fraction=3, names=None):
             out.append(dict(name=f"{nm}#{rep}", cell=nm, model=model, kwargs=kw, resume_at=resume_at, checkpoint_interval=int(max(5, nlive * 0.4)),
                             outdir=os.path.join(scratch, f"run-{k}"), _timeout=150))
             k += 1
-    if tier == "thorough" and names is None:
-        out += generated_std_cases(seed, 150, scratch)
+    if tier == "thorough" and full_matrix:
+        out += generated_std_cases(seed, 400, scratch)
     return out
 
 
